@@ -117,6 +117,7 @@ def run(body, prefix=(), tracing=False, horizon=20000, expect=None,
 
     def driver(S):
         S.urandom_seed = seed
+        S.urandom_log = []
         W = World(S, **netkw)
         return body(W)
     return pysched.run_execution(driver, prefix, tracing, horizon, expect,
